@@ -403,6 +403,8 @@ class SymdelDB:
 
     def __init__(self, seqs, max_edits):
         self.seqs = seqs
+        # positional access also for containers with labels (e.g. pandas Series)
+        self._seqs_list = list(seqs)
         self.max_edits = max_edits
         self.variant_dict = {}
         for i, seq in enumerate(seqs):
@@ -463,10 +465,10 @@ class SymdelDB:
                 for j in self.variant_dict[comb]:
                     j_indices.add(j)
             for j in j_indices:
-                dist = custom_distance(seqs2[i], self.seqs[j])
+                dist = custom_distance(seq, self._seqs_list[j])
                 if dist > threshold:
                     continue
-                if is_custom and levenshtein(seqs2[i], self.seqs[j]) > self.max_edits:
+                if is_custom and levenshtein(seq, self._seqs_list[j]) > self.max_edits:
                     continue
                 ans.append((i, j, dist))
 
@@ -547,10 +549,11 @@ def symdel(seqs, max_edits=1, max_returns=None, n_cpu=1,
             if len(values) == 1:
                 continue
             for i, j in combinations(values, 2):
-                dist = custom_distance(seqs[i], seqs[j])
+                seq_i, seq_j = symdeldb._seqs_list[i], symdeldb._seqs_list[j]
+                dist = custom_distance(seq_i, seq_j)
                 if dist > threshold:
                     continue
-                if is_custom and levenshtein(seqs[i], seqs[j]) > max_edits:
+                if is_custom and levenshtein(seq_i, seq_j) > max_edits:
                     continue
                 ans.add((i, j, dist))
                 ans.add((j, i, dist))
